@@ -515,6 +515,46 @@ def check_handed_out_expansions(ctx, rng):
     return True
 
 
+def check_jsx_component_purity(ctx, rng):
+    """tagify() / str() / render() of a JSX component leave the component, its props and everything reachable from it as they
+    were (same child and prop objects, same structure), so repeating them gives the same result."""
+    from ..loader import jsx_mod
+
+    Foo, Bar = jsx_mod.jsx_tag_create("Foo"), jsx_mod.jsx_tag_create("Bar")
+    # (the component among the JSX children expands to ONE tag: an expansion that is a list is refused there by the unchanged library)
+    w = gen.build({"k": "tf", "ret": "one", "c": [gen.TAG("span", {"k": "text", "s": "widget"}, ws=False)]})
+    dep = ht.HTMLDependency("jx", "1.0", source={"subdir": "a"}, script={"src": "a.js"})
+    title = ht.div("t", ht.span("u"))
+    inner = Bar(w, dep, title=title, n=3)
+    x = Foo(inner, "text", footer=inner) if rng.random() < 0.5 else Foo(ht.div(inner, "k"), w, header=title)
+    root = rng.choice([lambda: x, lambda: ht.div(x), lambda: ht.TagList("a", x)])()
+    kids_before, inner_kids, inner_attrs = list(x.children), list(inner.children), dict(inner.attrs)
+    before = (fp(x), fp(inner), fp(title))
+    ops = [("tagify", lambda: root.tagify()), ("str", lambda: str(root)), ("render", lambda: (root.render()["html"] if hasattr(root, "render") else root._repr_html_())), ("get_dependencies", lambda: root.tagify().get_dependencies()),
+           ("document", lambda: ht.HTMLDocument(root).render()["html"])]
+    rng.shuffle(ops)
+    first = {}
+    for rnd in range(2):
+        for label, op in ops:
+            ctx.count("monitor.jsx_component_purity")
+            try:
+                res = op()
+            except Exception as e:
+                ctx.violation("read-only-op-raises", "%s of a JSX component raised %r" % (label, e), {"op": label})
+                return False
+            same_objects = (len(x.children) == len(kids_before) and all(a is b for a, b in zip(x.children, kids_before))
+                            and len(inner.children) == len(inner_kids) and all(a is b for a, b in zip(inner.children, inner_kids))
+                            and list(inner.attrs) == list(inner_attrs) and all(inner.attrs[k] is v for k, v in inner_attrs.items()))
+            if not same_objects or (fp(x), fp(inner), fp(title)) != before:
+                ctx.violation("read-only-op-mutates:jsx-component", "%s changed the JSX component (or a component / tag among its children and props)" % label, {"op": label, "round": rnd})
+                return False
+            key = res if isinstance(res, str) else fp(res)
+            if first.setdefault(label, key) != key:
+                ctx.violation("repeat-differs:jsx-component", "%s of the same JSX component gives a different result the second time" % label, {"op": label})
+                return False
+    return True
+
+
 def check_default_equivalence(ctx, kind, obj, tf, nofs, scratch, wit):
     """Leaving a parameter out is the same as passing its documented default - positionally or by keyword."""
     ops = ops_for(kind, scratch)
@@ -788,3 +828,5 @@ def _run(ctx, scratch):
         ctx.case(h, nontrivial=nontrivial(h))
         ctx.guard(check_equality, ctx, rng, lg.Ids(), witness={"what": "equality"})
         ctx.guard(check_handed_out_expansions, ctx, rng, witness={"what": "expansion results that their object keeps"})
+        if ctx.counters["monitor.handed_out_expansions"] % 3 == 0:
+            ctx.guard(check_jsx_component_purity, ctx, rng, witness={"what": "JSX component purity"})
